@@ -235,6 +235,24 @@ def main(tier):
                 c.problem("spec", "wf_doc", "a canonical document without tables, footnotes and math info strings is outside wf_doc (the domain of C03_render_partial)", {"doc": r["tok"][:3000]})
     c.cov["spec_checks"]["canonical d and no table / footnote / math info => wf_doc d (domain of C03_render_partial)"] = nfrag
 
+    # ------------------------------------------------------------------ repaired defects (status fixed suppresses nothing)
+    # each recorded witness carries the HTML CommonMark prescribes for it; the real pipeline must produce it
+    import json as _json
+    with open(vlib.os.path.join(vlib.ROOT, "known_findings.json")) as f:
+        fixed = [e for e in _json.load(f)["findings"] if e["property"] == "C03" and e["status"] == "fixed" and isinstance(e.get("witness"), dict) and "expected_html" in e["witness"]]
+    rows = []
+    for e in fixed:
+        w = e["witness"]
+        optok = "-" if w.get("opts", "-") in ("-", "") else w["opts"]
+        a = vlib.run_one(vlib.VH["debug"], f"md html {optok} {hx(w['doc'].encode())}")
+        got = unhx(a.split(" ")[1]).decode("utf-8", "replace") if a.startswith("ok ") and len(a.split(" ")) > 1 else a
+        c.count(("fixed-witness:" + e["id"]).encode(), True)
+        rows.append({"id": e["id"], "class": e["class"], "passes": got == w["expected_html"]})
+        if got != w["expected_html"]:
+            c.violation(f"the witness of the repaired class {e['class']} ({e['id']}, {e.get('commit')}) does not render as CommonMark prescribes: the repair is missing from this tree or the defect has returned",
+                        {"markdown": w["doc"], "opts": optok, "expected_html": w["expected_html"], "observed_html": got[:600], "line": f"md html {optok} {hx(w['doc'].encode())}"})
+    c.cov["spec_checks"]["witnesses of repaired classes render as prescribed"] = rows
+
     # ------------------------------------------------------------------ the real parser
     run_impl(can)
     failing = []
